@@ -18,10 +18,11 @@ RULE = ('1-6 route declarations (literals over an alphabet with every regex meta
         'declared route and applying 0-2 edits (char insert/delete/replace, case flip, slash add/remove, appended '
         'newline/CR/NUL, percent-encoding, invalid UTF-8 splices) or fully random; non-trivial = some declared route has a '
         'placeholder AND (the outcome is a match with a non-empty match dictionary OR the path is an edited instantiation, '
-        'i.e. a near-miss); distinct by full case')
+        'i.e. a near-miss); distinct by full case; thorough tier additionally runs the exhaustive small-scope '
+        'enumeration described in coverage.sub_runs (gen.EXH_SPACE)')
 ASSUMPTIONS = [
-    'route patterns are str; {name:regex} regexes outside the sublanguage (one character class \\d \\w . [set] [^set] or a '
-    'plain character, with quantifier none + * ? {n} {n,} {,m} {n,m}) are classified Unsupported by the model and excluded',
+    'route patterns are str; {name:regex} regexes outside the sublanguage (a non-empty sequence of atoms \\d \\w . [set] [^set] or a '
+    'plain character, each with quantifier none + * ? {n} {n,} {,m} {n,m}) are classified Unsupported by the model and excluded',
     'Unicode classification of non-ASCII characters by \\w and \\d is an oracle computed with re itself per case; '
     'theorems hold for every oracle',
     'route predicates are modelled as pure functions of (request method, match dictionary)',
@@ -79,6 +80,12 @@ def valid(case):
                 return False
         if case['mode'] == 'router' and not G.router_ok(case):
             return False
+        for st in case.get('history') or []:
+            if not isinstance(st['path'], str) or any(ord(c) > 255 for c in st['path']) or st['method'] not in ('GET', 'POST'):
+                return False
+            for op in st['mutate']:
+                if op[0] not in ('set', 'add', 'del', 'conv') or not isinstance(op[1], int):
+                    return False
         return case['mode'] in ('mapper', 'router') and case['method'] in ('GET', 'POST')
     except Exception:
         return False
@@ -89,13 +96,17 @@ _W = re.compile(r'\w')
 _D = re.compile(r'\d')
 
 
-def _decoded(case):
-    if case['path'] is None:
+def _dec(path):
+    if path is None:
         return ''
     try:
-        return case['path'].encode('latin-1').decode('utf-8', 'ignore')
+        return path.encode('latin-1').decode('utf-8', 'ignore')
     except Exception:
         return ''
+
+
+def _decoded(case):
+    return _dec(case['path']) + ''.join(_dec(st['path']) for st in case.get('history') or [])
 
 
 def _oracle(case):
@@ -118,7 +129,10 @@ def _pred_wire(p):
 def to_wire(case):
     decls = [[d['name'], d['pattern'], int(d['static']), [_pred_wire(p) for p in d['preds']]] for d in case['decls']]
     raw = [] if case['path'] is None else [case['path']]
-    return [_oracle(case), decls, raw, case['method'], 1 if case['mode'] == 'router' else 0]
+    w = [_oracle(case), decls, raw, case['method'], 1 if case['mode'] == 'router' else 0]
+    if case.get('history'):
+        w.append([[[st['path']], st['method']] for st in case['history']])
+    return w
 
 
 def _canon_outcome(o):
@@ -128,16 +142,24 @@ def _canon_outcome(o):
 
 
 def from_wire(case, raw):
-    if not (isinstance(raw, list) and len(raw) == 2 and isinstance(raw[0], list) and len(raw[0]) == 5):
+    if not (isinstance(raw, list) and len(raw) == 4 and isinstance(raw[0], list) and len(raw[0]) == 5):
         return {'model': ['MODEL-BAD', raw], 'spec': None}
-    (sts, rl, st, out, tr), spec = raw
+    (sts, rl, st, out, tr), spec, hm, hs = raw
     router = case['mode'] == 'router'
     model = [[] if router else sts, rl, st, _canon_outcome(out), [t for t in tr if t[1] > 0]]
-    if any(s >= 2 for s in sts):
+    hist = case.get('history')
+    if hist:
+        model.append([_canon_outcome(o) for o in hm] if out != [3] else [])
+    if any(s >= 2 for s in sts) or hm == ['drift']:
         model = ['unsupported', sts]
     sp = None
     if spec:
         sp = _canon_outcome(spec[0])
+        if hist:
+            if all(hs):
+                sp = [sp, [_canon_outcome(x[0]) for x in hs]]
+            else:
+                sp = None
     return {'model': model, 'spec': sp}
 
 
@@ -195,6 +217,22 @@ def _trace(calls):
     return tr
 
 
+def _mutate(d, ops):
+    """In-place edits of a match dictionary the caller was handed: replace a value, add a key, delete a key, convert."""
+    for op in ops:
+        keys = sorted(d)
+        if op[0] == 'add':
+            d['zz_added%d' % op[1]] = 'ADDED'
+        elif keys:
+            k = keys[op[1] % len(keys)]
+            if op[0] == 'set':
+                d[k] = 'REPLACED'
+            elif op[0] == 'del':
+                del d[k]
+            elif op[0] == 'conv':
+                d[k] = d[k].upper() + '!' if isinstance(d[k], str) else tuple(x.upper() for x in d[k]) + ('!',)
+
+
 def _run_mapper(case):
     mapper = _impl['RoutesMapper']()
     calls = []
@@ -211,19 +249,27 @@ def _run_mapper(case):
             sts.append('EXC:' + type(e).__name__)
     rl = [r._verif_idx for r in mapper.routelist]
     st = [r._verif_idx for r in mapper.static_routes]
-    environ = {'REQUEST_METHOD': case['method']}
-    if case['path'] is not None:
-        environ['PATH_INFO'] = case['path']
-    request = _impl['Request'](environ)
-    try:
-        info = mapper(request)
-        if info['route'] is None:
-            out = [2]
-        else:
+    def one(path, method, ops):
+        environ = {'REQUEST_METHOD': method}
+        if path is not None:
+            environ['PATH_INFO'] = path
+        request = _impl['Request'](environ)
+        try:
+            info = mapper(request)
+            if info['route'] is None:
+                return [2]
             out = [1, info['route']._verif_idx, _dict_obs(info['match'])]
-    except _impl['URLDecodeError']:
-        out = [0]
-    return [sts, rl, st, out, _trace(calls)]
+            _mutate(info['match'], ops)      # what a view (request.matchdict) or a predicate (info['match']) may do
+            return out
+        except _impl['URLDecodeError']:
+            return [0]
+    hist = [one(h['path'], h['method'], h['mutate']) for h in case.get('history') or []]
+    del calls[:]
+    out = one(case['path'], case['method'], [])
+    res = [sts, rl, st, out, _trace(calls)]
+    if case.get('history'):
+        res.append(hist)
+    return res
 
 
 def _run_router(case):
@@ -232,8 +278,11 @@ def _run_router(case):
     calls = []
     seen = {}
 
+    cur = {'ops': []}
+
     def view(request):
         body = json.dumps({'name': request.matched_route.name, 'match': _dict_obs(request.matchdict)})
+        _mutate(request.matchdict, cur['ops'])
         return Response(body=body.encode('utf-8'), content_type='application/json')
 
     def notfound(request):
@@ -252,31 +301,33 @@ def _run_router(case):
     except Exception as e:
         from pyramid.exceptions import ConfigurationError
         if isinstance(e, (ConfigurationError, re.error)):
-            return [[], [], [], [3], []]
+            return [[], [], [], [3], []] + ([[]] if case.get('history') else [])
         raise
     mapper = config.get_routes_mapper()
     rl = [seen[r.name] for r in mapper.routelist]
     st = [seen[r.name] for r in mapper.static_routes]
-    environ = WRequest.blank('/').environ
-    environ['REQUEST_METHOD'] = case['method']
-    if case['path'] is None:
-        del environ['PATH_INFO']
-    else:
-        environ['PATH_INFO'] = case['path']
-    got = {}
-
     def start_response(status, headers, exc_info=None):
-        got['status'] = status
-    try:
-        body = b''.join(app(environ, start_response))
-        j = json.loads(body.decode('utf-8'))
-        if j['name'] is None:
-            out = [2]
-        else:
-            out = [1, seen[j['name']], j['match']]
-    except _impl['URLDecodeError']:
-        out = [0]
-    return [[], rl, st, out, []]
+        pass
+
+    def one(path, method, ops):
+        environ = WRequest.blank('/').environ
+        environ['REQUEST_METHOD'] = method
+        environ['PATH_INFO'] = path
+        cur['ops'] = ops
+        try:
+            body = b''.join(app(environ, start_response))
+            j = json.loads(body.decode('utf-8'))
+            if j['name'] is None:
+                return [2]
+            return [1, seen[j['name']], j['match']]
+        except _impl['URLDecodeError']:
+            return [0]
+    hist = [one(h['path'], h['method'], h['mutate']) for h in case.get('history') or []]
+    out = one(case['path'], case['method'], [])
+    res = [[], rl, st, out, []]
+    if case.get('history'):
+        res.append(hist)
+    return res
 
 
 def run_impl(case):
@@ -293,11 +344,19 @@ def spec_holds(case, obs, spec):
     one the declarative specification computes from the declarations and the raw path."""
     if spec is None or spec == []:
         return None
-    if not isinstance(obs, list) or len(obs) != 5:
+    if not isinstance(obs, list) or len(obs) not in (5, 6):
         return False
     out = obs[3]
     if out == [3]:
         return None     # configuration refused (conflicting names / bad pattern): nothing was dispatched
+    if any(s != 0 for s in obs[0]):
+        # a connect() call raised: the property is about declarations that were made; what a failing declaration
+        # does to an earlier route of the same name is model territory (C01_connect_last_wins_general, checked by
+        # the correspondence), not something the property prescribes
+        return None
+    if case.get('history'):
+        # every dispatch of the history, and the final one, must be the specification's answer for ITS path
+        return len(obs) == 6 and [out, obs[5]] == spec
     return out == spec
 
 
@@ -323,7 +382,7 @@ def _has_placeholder(case):
 
 
 def nontrivial(case, obs):
-    if not (isinstance(obs, list) and len(obs) == 5) or not _has_placeholder(case):
+    if not (isinstance(obs, list) and len(obs) in (5, 6)) or not _has_placeholder(case):
         return False
     out = obs[3]
     if out and out[0] == 1 and out[2]:
@@ -335,9 +394,14 @@ def nontrivial(case, obs):
 
 def kinds(case, obs):
     k = ['mode-' + case['mode']]
-    if not (isinstance(obs, list) and len(obs) == 5):
+    if not (isinstance(obs, list) and len(obs) in (5, 6)):
         return k + ['harness-exc']
-    sts, rl, st, out, tr = obs
+    sts, rl, st, out, tr = obs[:5]
+    if len(obs) == 6:
+        k.append('history-%d' % len(obs[5]))
+        same = [h for h, o in zip(case['history'], obs[5]) if h['path'] == case['path'] and o and o[0] == 1 and o[2]]
+        if same and out[0] == 1:
+            k.append('history-same-path-matched-then-mutated' if any(h['mutate'] for h in same) else 'history-same-path-matched')
     k.append({0: 'decode-error', 1: 'match', 2: 'no-route', 3: 'config-error'}.get(out[0], '?'))
     if out[0] == 1:
         pos = rl.index(out[1]) if out[1] in rl else -1
@@ -377,6 +441,18 @@ def describe(case):
 def explain(item):
     return ('observed selection differs from the declarative specification (first declared route whose pattern '
             'matches the WHOLE decoded path and whose predicates hold)')
+
+
+def evidence_extra(stats, tier):
+    if tier != 'thorough':
+        return {}
+    done = (stats.get('kinds') or {}).get('gen-exh', 0)
+    clean = not stats.get('violations') and not stats.get('disagreements')
+    return {'exhaustive_subruns': [{
+        'name': 'small-scope enumeration', 'space': G.EXH_SPACE, 'cases_in_space': G.exhaustive_count(),
+        'cases_evaluated': done, 'exhaustive': bool(clean and done == G.exhaustive_count()),
+        'note': "the design's full space (all pairs of <= 3-item patterns x paths <= 5, about 1.3e8 evaluations) does not "
+                'fit the tier budget; pairs are restricted as stated'}]}
 
 
 def targeted(broken, disagreements, rng):
